@@ -99,6 +99,26 @@ func c11(r *sim.R) *sim.Violation {
 	// one interface only: the engine iterates a Go map of per-interface work managers, whose order
 	// no seed controls; with several interfaces the schedule (not the result) would not replay
 	build(m, r.T)
+	// one run in three: the day after the last one is just being started by the writer - its
+	// directory exists, metadata (and possibly some column files) do not yet. Every configuration
+	// must cope with it in the same way (it holds no committed block).
+	bare := 0
+	if r.T.Draw(3) == 0 {
+		bare = 1 + r.T.Draw(2)
+		for i := 0; i < bare; i++ {
+			day := model.DayOf(base + int64(nDays+i)*86400)
+			dir := "/sim/w" + dbcheck.DayPath(rel, "eth0", day, fmt.Sprint(day))
+			if err := simfs.MkdirAll(dir, 0o755); err != nil {
+				panic(simfs.HarnessError{Msg: err.Error()})
+			}
+			if r.T.Bool() {
+				if err := simfs.WriteFile(dir+"/sip.gpf", []byte{1, 2, 3}, 0o644); err != nil {
+					panic(simfs.HarnessError{Msg: err.Error()})
+				}
+			}
+		}
+		r.Probe("day_directory_without_metadata")
+	}
 	q := model.GenQuery(r.T, m)
 	q.First, q.Last = 1, 4102444800
 	q.Ifaces = []string{"eth0"}
@@ -108,7 +128,7 @@ func c11(r *sim.R) *sim.Violation {
 			q.Cond = nil
 		}
 	}
-	r.Event("%s over %d days", describe(q), nDays)
+	r.Event("%s over %d days (+%d day directories without metadata)", describe(q), nDays, bare)
 	want, wantTot := q.Eval(m, false)
 	var ref []string
 	nCfg := 3 + r.T.Draw(3)
